@@ -11,6 +11,7 @@ mod replay;
 mod scen_api;
 mod scen_aut;
 mod scen_build;
+mod scen_cli;
 mod scen_file;
 mod scen_lev;
 mod scen_mem;
@@ -86,6 +87,12 @@ fn record(args: &Args) {
             } else {
                 scen_mem::c14(&mut log, seed, &tier)
             }
+            let (n, counts) = log.finish();
+            println!("{}", json!({"scenario": scen, "events": n, "counts": counts, "panics": 0}));
+        }
+        "cli" => {
+            let mut log = Log::create(&out);
+            scen_cli::cli(&mut log, seed, &tier, &args.get("fst-bin", "fst"), &args.get("work", "/verif/work/C19/cli"));
             let (n, counts) = log.finish();
             println!("{}", json!({"scenario": scen, "events": n, "counts": counts, "panics": 0}));
         }
